@@ -433,6 +433,19 @@ impl ops::Sub<RealSemiring> for RealSemiring {"""),
          new="""                let _ = &new_model;
                 self.state_stack.push(SatState {
                     model: self.top_state().model.clone(),"""),
+    dict(name="he-eq-compl-equals-reg", file="src/repr/bdd.rs", rule="HE", props=["C02"], expect="BddPtr:eq-identity",
+         old="""            (Self::Reg(l0), Self::Reg(r0)) => std::ptr::eq(*l0, *r0),
+            _ => core::mem::discriminant(self) == core::mem::discriminant(other),""",
+         new="""            (Self::Reg(l0), Self::Reg(r0)) => std::ptr::eq(*l0, *r0),
+            (Self::Reg(l0), Self::Compl(r0)) => std::ptr::eq(*l0, *r0),
+            _ => core::mem::discriminant(self) == core::mem::discriminant(other),"""),
+    dict(name="he-eq-or-pattern-ok", file="src/repr/bdd.rs", rule="HE", props=["C02"], expect=None,
+         old="""            (Self::Compl(l0), Self::Compl(r0)) => std::ptr::eq(*l0, *r0),
+            (Self::Reg(l0), Self::Reg(r0)) => std::ptr::eq(*l0, *r0),
+            _ => core::mem::discriminant(self) == core::mem::discriminant(other),""",
+         new="""            (Self::Compl(l0), Self::Compl(r0)) | (Self::Reg(l0), Self::Reg(r0)) => std::ptr::eq(*l0, *r0),
+            (Self::PtrTrue, Self::PtrTrue) | (Self::PtrFalse, Self::PtrFalse) => true,
+            _ => false,"""),
     dict(name="law-eu-choose-smaller", file="src/util/semirings/expectation.rs", rule="LAW", props=["C13"], expect="ExpectedUtility:choose",
          old="""impl BBSemiring for ExpectedUtility {
     fn choose(&self, arg: &ExpectedUtility) -> ExpectedUtility {
